@@ -47,6 +47,7 @@ type mvInput struct {
 	GenSeed int64 `json:"gen_seed,omitempty"`
 	GenN    int   `json:"gen_n,omitempty"`
 	Drains  bool  `json:"drains,omitempty"`
+	Iso     bool  `json:"iso,omitempty"` // re-scan every open snapshot after every mutating op
 }
 
 func b2i(bs []byte) []int {
@@ -608,7 +609,16 @@ func mvGenerate(r *rand.Rand, in *mvInput, n int, drains bool) *mvExec {
 		g.do(mvOp{Op: "neww"})
 	}
 	for i := 0; i < n; i++ {
+		before := len(g.ops)
 		g.step(drains)
+		if in.Iso && len(g.ops) > before {
+			switch g.ops[len(g.ops)-1].Op {
+			case "put", "del", "delnode", "close", "gc", "snap", "drain":
+				for _, sn := range g.openSnaps() {
+					g.do(mvOp{Op: "scan", Sn: int(sn)})
+				}
+			}
+		}
 	}
 	in.Ops = g.ops
 	return e
@@ -969,6 +979,13 @@ func mvCommand(prop, mode string, rule string) func(a runArgs) error {
 				in.Drains = true
 				sink.Begin(in)
 				runMvcc(in, r, n, sink, false, true)
+			case "iso":
+				in.Mode = "mvcc"
+				in.Iso = true
+				in.GenN = 8 + n/2
+				in.Drains = top.Intn(2) == 0
+				sink.Begin(in)
+				runMvcc(in, r, in.GenN, sink, false, in.Drains)
 			default:
 				sink.Begin(in)
 				runMvcc(in, r, n, sink, false, false)
@@ -980,6 +997,7 @@ func mvCommand(prop, mode string, rule string) func(a runArgs) error {
 
 func init() {
 	commands["mvcc"] = mvCommand("C02", "mvcc", "random well-formed histories (10..80 ops, 3..8 keys, 1..3 writers, both comparators, Go-managed and guard-allocator memory): Put/Delete/GetNode/DeleteNode through possibly stale handles/NewSnapshot/Open/Close in random order/GC/Scan/ItemsCount, every open snapshot re-scanned at the end; non-trivial = >=2 snapshots and some key has a dead-but-present version (cross-epoch delete), distinct by Coq term")
+	commands["mvcc-iso"] = mvCommand("C01", "iso", "random well-formed histories as for C02 (both comparators, both memory modes, 1..3 writers, random snapshot close order, real collection workers running) in which EVERY open snapshot is re-scanned after every Put/Delete/DeleteNode/Close/GC/NewSnapshot and compared with the content recorded at its creation; non-trivial = >=2 snapshots and some key has a dead-but-present version")
 	commands["mvcc-gc"] = mvCommand("C06", "gc", "as mvcc, plus forced GC() + wait-for-quiescence points at which the physical level-0 content (item, bornSn, deadSn) is compared with the model after draining its workers; oracle: live/visible versions present, collectable versions gone")
 	commands["mvcc-iter"] = mvCommand("C09", "iter", "a generated history, then an iterator script (SeekFirst/Seek present-absent-below-above/Next/Refresh/SetRefreshRate in {0,1,2,3,7}) on a random open snapshot; non-trivial = the store physically holds versions invisible to that snapshot and the view has >=2 items")
 	commands["mvcc-visit"] = mvCommand("C10", "visit", "a generated history, then Visitor on a random (often the oldest) open snapshot with shards in {1,2,3,4,5,8,16,64}, concurrency in {1,2,8}, the real pivots read through GetRangeSplitItems and fed to the model; 1 in 4 runs injects a callback error (oracle only); non-trivial = some key has several physical versions, view >= 2 items, shards > 1")
